@@ -999,6 +999,9 @@ mutant('L6-guard-cancels-only-sometimes', ['C05'], [
 mutant('S4-head-error-parked-instead-of-reported', ['C04', 'C05'], [
     (S, "                    if started_at_commit_head {", "                    if started_at_commit_head && std::hint::black_box(true) {"),
 ], ['|S4|'])
+mutant('T9-commit-drops-its-transitions-sometimes', ['C10'], [
+    ('src/parallel_state.rs', "        let transitions = self.shared.cache.apply_evm_state_inner(evm_state);\n        if let Some(state) = self.transition_state.as_mut() {", "        let transitions = self.shared.cache.apply_evm_state_inner(evm_state);\n        if let Some(state) = self.transition_state.as_mut() && std::hint::black_box(true) {"),
+], ['|T9|'])
 mutant('LC5-validate-stale-test-inverted', ['C05'], [(S, """        if tx_state.incarnation != incarnation {
             self.abort(AbortReason::ParallelError {
                 txid,
